@@ -20,6 +20,8 @@ Ltac leaf_st :=
   | |- pres _ (modify _) => apply (pres_modify Rst); intros ?; solve_write_st
   | |- pres _ (emit _) => apply (pres_modify Rst); intros ?; solve_write_st
   | |- pres _ (upd_node _ _) => apply (pres_modify Rst); intros ?; solve_write_st
+  | |- pres _ (stamp_node _ _) => apply (pres_modify Rst); intros ?; solve_write_st
+  | |- pres _ (stamp_var _ _) => apply (pres_modify Rst); intros ?; solve_write_st
   | |- pres _ (upd_bind _ _) => apply (pres_modify Rst); intros ?; solve_write_st
   | |- pres _ (upd_var _ _) => apply (pres_modify Rst); intros ?; solve_write_st
   | |- pres _ (upd_obs _ _) => apply (pres_modify Rst); intros ?; solve_write_st
@@ -217,6 +219,8 @@ Lemma st_unwrap_value n s : pres Rst (unwrap_value n s). Proof. prim unwrap_valu
 Global Hint Resolve st_unwrap_value : pres_st.
 Lemma st_copy_child_bindrhs fuel n c : pres Rst (copy_child_bindrhs fuel n c). Proof. prim copy_child_bindrhs. Qed.
 Global Hint Resolve st_copy_child_bindrhs : pres_st.
+Lemma st_recompute_body fuel n : pres Rst (recompute_body fuel n). Proof. prim recompute_body. Qed.
+Global Hint Resolve st_recompute_body : pres_st.
 Lemma st_recompute_one fuel n : pres Rst (recompute_one fuel n). Proof. prim recompute_one. Qed.
 Global Hint Resolve st_recompute_one : pres_st.
 Lemma st_recompute fuel : forall n, pres Rst (recompute fuel n).
